@@ -123,10 +123,21 @@ def run_grid(desc, ctx):
 
 def _rand_pose(rnd, kind=None):
     import numpy as np
-    kind = kind or rnd.choice(('random', 'random', 'random', 'identity', 'half', 'tiny', 'random'))
+    kind = kind or rnd.choice(('random', 'random', 'random', 'identity', 'half', 'half_exact', 'tiny', 'quarter', 'random'))
     axis = [rnd.gauss(0, 1) for _ in range(3)]
     if kind == 'identity':
         R = np.eye(3)
+    elif kind == 'half_exact':
+        # exact half turns: the scalar part of the quaternion is exactly zero
+        R = np.diag(rnd.choice(((1.0, -1.0, -1.0), (-1.0, 1.0, -1.0), (-1.0, -1.0, 1.0))))
+        if rnd.random() < 0.3:
+            a = np.array(rnd.choice(((1, 1, 0), (0, 1, 1), (1, 0, 1), (1, 1, 1))), dtype=float)
+            a /= np.linalg.norm(a)
+            R = 2.0 * np.outer(a, a) - np.eye(3)
+    elif kind == 'quarter':
+        # exact quarter turns (their products are exact half turns)
+        R = np.array(rnd.choice((((0, -1, 0), (1, 0, 0), (0, 0, 1)), ((1, 0, 0), (0, 0, -1), (0, 1, 0)),
+                                 ((0, 0, 1), (0, 1, 0), (-1, 0, 0)))), dtype=float)
     elif kind == 'half':
         R = lhgen.rot_axis(rnd.choice(((1, 0, 0), (0, 1, 0), (0, 0, 1), axis)), math.pi)
     elif kind == 'tiny':
@@ -174,6 +185,11 @@ def run_poses(desc, ctx):
         # matrix / rotation vector / quaternion views agree, matrices stay orthonormal
         ctx.count('mon.pose_views')
         Rv = Rotation.from_rotvec(A.rot_vec).as_matrix()
+        qa = np.asarray(A.rot_quat, dtype=float)
+        qab = np.asarray(AB_C.rot_quat, dtype=float)
+        if abs(np.linalg.norm(qa) - 1) > 1e-9 or abs(np.linalg.norm(qab) - 1) > 1e-9:
+            ctx.violate('pose:quaternion-view-not-a-unit-quaternion', {'q': qa.tolist(), 'q_composed': qab.tolist()})
+            continue
         Rq = Rotation.from_quat(A.rot_quat).as_matrix()
         e8 = float(np.linalg.norm(Rv - Ra) + np.linalg.norm(Rq - Ra))
         P2 = Pose.from_rot_vec(A.rot_vec, ta)
